@@ -251,11 +251,129 @@ fn run_cfg<TC: ModelCfg>(args: &Args, rep: &Report) {
     });
 }
 
+// ---- parallel insertion / preload: one publish whose subtasks run as separate tokio tasks, ONE failing
+// storage call anywhere, all schedules within the preemption bound, detached tasks drained before judging
+fn any_op(d: &crate::gate::OpDesc) -> bool {
+    // every real storage call; not the synthetic start gate (failing it has no meaning)
+    d.kind != "start" && d.kind != "vrf_key"
+}
+
+fn parallel_faults<TC: ModelCfg>(args: &Args, rep: &Report) {
+    use crate::conc::*;
+    use crate::explore::{explore, Chooser};
+    // four labels whose version-1 node labels start with 00, 01, 10, 11 (tasks at two levels)
+    let mut spread: Vec<Option<Vec<u8>>> = vec![None; 4];
+    for i in 0..200 {
+        let l = format!("p{i}").into_bytes();
+        let nl = node_label::<TC>(&l, true, 1);
+        let idx = (nl.label_val[0] >> 6) as usize;
+        if spread[idx].is_none() {
+            spread[idx] = Some(l);
+        }
+    }
+    let ls: Vec<Vec<u8>> = spread.into_iter().map(|o| o.expect("label for every 2-bit prefix")).collect();
+    let x = b"x".to_vec();
+    let y = b"y".to_vec();
+    let initial: Vec<Batch> = vec![ls.iter().map(|l| (l.clone(), x.clone())).collect()];
+    let batch: Batch = ls.iter().map(|l| (l.clone(), y.clone())).collect();
+    let mut model = DirModel::default();
+    for b in &initial {
+        model.publish(b);
+    }
+    let mut model_new = model.clone();
+    model_new.publish(&batch);
+    let published: Vec<D32> = (0..=model.epoch).map(|e| model_root::<TC>(&model.as_of(e)).0).collect();
+    let published_new: Vec<D32> = (0..=model_new.epoch).map(|e| model_root::<TC>(&model_new.as_of(e)).0).collect();
+    // storage before the publish (deterministic)
+    let before = crate::gate::plain_runtime().block_on(async {
+        let (db, _) = super::c06::replay_prefix::<TC>(&initial).await;
+        db.dump().await
+    });
+    for (pname, par, cache) in [
+        ("static2_nocache", AzksParallelismOption::Static(2), CacheCfg::None),
+        ("static4_nocache", AzksParallelismOption::Static(4), CacheCfg::None),
+        ("static4_cache_cold", AzksParallelismOption::Static(4), CacheCfg::Default),
+    ] {
+        let sc = Scenario {
+            initial: initial.clone(),
+            actors: vec![Actor { name: "P".into(), inst: Inst::Writer, ops: vec![Op::Publish(batch.clone())] }],
+            writer_cache: cache,
+            reader_cache: CacheCfg::None,
+            par: AzksParallelismConfig { insertion: par, preload: par },
+            reader_warmup: vec![],
+            lag_publishes: vec![],
+            poller: false,
+            gate_vrf: false,
+            post_gates: false,
+            faults: 1,
+            faultable: any_op,
+            cold_writer_cache: cache != CacheCfg::None,
+        };
+        // deviation bound: the fault (1) plus preemptions
+        let bound = if args.quick() { 2 } else { 3 };
+        let stats = explore(args.threads, bound, if args.quick() { 40_000 } else { 800_000 }, |ch: &mut Chooser| {
+            let out = run_scenario::<TC>(&sc, ch);
+            rep.eval(1);
+            let ident = |k: &str| format!("{}/parallel/{}/{}", TC::NAME, pname, k);
+            let failed_step = out.steps.iter().find(|s| s.answer == crate::gate::Answer::Fail).map(|s| format!("{} {}", s.desc.kind, s.desc.detail));
+            let detail = |e: serde_json::Value| json!({"choices": ch.choices(), "deviations": ch.cost(), "failed_call": failed_step, "schedule": show_steps(&out), "observed": e});
+            if out.horizon {
+                rep.violation(ident("deadlock_or_horizon"), detail(json!({})));
+                return;
+            }
+            let Some((OpResult::Publish(r), _, _)) = out.results[0].first() else { return };
+            let rt = crate::gate::plain_runtime();
+            rt.block_on(async {
+                match (r, &failed_step) {
+                    (Ok(eh), None) => {
+                        if eh.0 != model_new.epoch || eh.1 != published_new[model_new.epoch as usize] {
+                            rep.violation(ident("fault_free_schedule_wrong_result"), detail(json!({"got": format!("{eh:?}")})));
+                        }
+                    }
+                    (Ok(eh), Some(_)) => rep.violation(ident("publish_succeeded_despite_storage_failure"), detail(json!({"got": format!("{eh:?}")}))),
+                    (Err(_), None) => rep.violation(ident("publish_failed_without_fault"), detail(json!({"error": format!("{r:?}")}))),
+                    (Err(_), Some(_)) => {
+                        rep.distinct(format!("{}:{}:{}", TC::NAME, pname, failed_step.clone().unwrap()));
+                        // detached subtasks have been drained: nothing of the failed epoch may have reached storage
+                        if out.writer_mgr.is_transaction_active() {
+                            rep.violation(ident("transaction_left_open"), detail(json!({})));
+                        }
+                        if out.db.dump().await != before {
+                            rep.violation(ident("storage_changed_by_failed_publish"), detail(json!({"note": "records written after the rollback (e.g. by a subtask that was still running)"})));
+                        }
+                        let same = Directory::<TC, _, _>::new(out.writer_mgr.clone(), out.vrf.clone(), AzksParallelismConfig::disabled()).await.unwrap();
+                        for b in reader_suite::<TC, _>(&same, &model, &published, &[], true).await {
+                            rep.violation(ident(&format!("same_manager_after_failed_publish/{}", b.kind)), detail(json!({"detail": b.detail})));
+                        }
+                        // a later publish succeeds and ends in the fault-free state
+                        match same.publish(to_akd_batch(&batch)).await {
+                            Ok(eh) if eh.0 == model_new.epoch && eh.1 == published_new[model_new.epoch as usize] => {
+                                let fresh = new_dir::<TC>(&out.db, &out.vrf, CacheCfg::None, AzksParallelismConfig::disabled()).await;
+                                for b in reader_suite::<TC, _>(&fresh, &model_new, &published_new, &[], true).await {
+                                    rep.violation(ident(&format!("fresh_instance_after_retry/{}", b.kind)), detail(json!({"detail": b.detail})));
+                                }
+                            }
+                            other => rep.violation(ident("retry_after_failed_publish_wrong"), detail(json!({"retry": format!("{other:?}")}))),
+                        }
+                    }
+                }
+            });
+        });
+        rep.count(&format!("{}:parallel:{}:executions", TC::NAME, pname), stats.executions);
+        if stats.capped {
+            rep.cap_hit(format!("{} parallel {} cap hit at bound {}", TC::NAME, pname, bound));
+        }
+    }
+}
+
 pub fn run(args: &Args) -> i32 {
     let rep = Report::new("C10", &args.tier, "fault_enumeration");
     run_cfg::<W>(args, &rep);
     run_cfg::<E>(args, &rep);
-    let _ = AzksParallelismOption::Disabled;
+    parallel_faults::<W>(args, &rep);
+    if !args.quick() {
+        parallel_faults::<E>(args, &rep);
+    }
     rep.finish(
         "one evaluation = one publish with exactly one storage call (index k of the fault-free run, every k) failing, for prefix histories over the x-valued batches (depth 1 quick / 2 thorough) x every next batch of the 27-batch alphabet x manager {no cache, default cache, cache warmed by lookups+audit}; thorough adds a second failing publish before the successful one. Oracle: Err returned; same and fresh instance serve the previous state (reader suite vs DirModel), no open transaction; retry reaches the fault-free state. distinct = distinct (configuration, variant, prefix, batch, number of storage calls)",
         &["a failing storage call fails as a whole (no partial effect)", "sequential insertion here; parallel insertion with detached tasks is explored by the scheduler-based part", "blake3 collision resistance"],
